@@ -53,10 +53,26 @@ func Dot(spec *Spec, w io.WriteCloser, fromNode, toNode string) error {
   edge [fontsize = "12"]
 `)
 
+	// id quotes a node name that isn't the name of a node in the
+	// spec (a missing, empty or variable branch target).
+	id := func(name string) string {
+		if _, have := nodes[name]; have {
+			return name
+		}
+		return fmt.Sprintf("%q", name)
+	}
+
 	seen := make(map[string]bool)
 	node := func(name string, n *Node) error {
 		if n == nil {
-			return fmt.Errorf("unknown node '%s'", name)
+			// A branch target that isn't in the spec: draw a
+			// placeholder, so that the branch still gets its
+			// edge (and the branches after it theirs).
+			if _, already := seen[name]; !already {
+				seen[name] = true
+				fmt.Fprintf(w, "  %s [shape=\"plaintext\", label=%q ]\n", id(name), name)
+			}
+			return nil
 		}
 
 		if _, already := seen[name]; already {
@@ -89,7 +105,10 @@ func Dot(spec *Spec, w io.WriteCloser, fromNode, toNode string) error {
 		if n.Action != nil || n.ActionSource != nil {
 			shape = "note"
 			var src string
-			x := n.ActionSource.Source
+			var x interface{} = "(native action)"
+			if n.ActionSource != nil {
+				x = n.ActionSource.Source
+			}
 			if s, is := x.(string); is {
 				src = s
 			} else {
@@ -192,7 +211,7 @@ func Dot(spec *Spec, w io.WriteCloser, fromNode, toNode string) error {
 			// label = fmt.Sprintf("[%d/%d] %s", i+1, len(n.Branches.Branches), label)
 			label = fmt.Sprintf("%d/%d %s", i+1, len(n.Branches.Branches), label)
 			fmt.Fprintf(w, "  %s -> %s [ color=\"%s\" label = <%s> ]\n",
-				name, b.Target, color, label)
+				name, id(b.Target), color, label)
 		}
 
 		return nil
